@@ -15,7 +15,8 @@ Import ListNotations.
 Open Scope N_scope.
 
 (** A successful rebase: the basis is known, every proof verified against it, the path
-    [rev]/[app] between the two indices was found and has at most 144 blocks (145 only through
+    [rev]/[app] between the two indices was found and has at most [md] blocks ([md]: the supported
+    distance, a parameter; the repository's default [max_rebase] is 144; [S md] only through
     the unreachable "from genesis" branch), every block on it has its body and supplement, and
     every non-ephemeral element is a leaf of the accumulator before each reverted block.  The
     result is [spec_apply]: the transactions not confirmed by an applied block, in their
